@@ -308,12 +308,39 @@ def r_stats_at(rep, prog):
     ENTRY = ("call", HE + "free", (("call", "llfree::atomic::Atom::load", (("idx", ("call", "llfree::lower::Lower::children",
              (("p", "self"), ("call", "llfree::FrameId::as_tree", (("p", "frame"),)))), ("call", "llfree::lower::HugeId::child_idx",
               (("call", "llfree::FrameId::as_huge", (("p", "frame"),)),))),)),))
+    AS_TREE = ("call", "llfree::FrameId::as_tree", (("p", "frame"),))
+    CHILD = ("call", "llfree::lower::HugeId::child_idx", (("call", "llfree::FrameId::as_huge", (("p", "frame"),)),))
+    AS_HUGE = ("call", "llfree::FrameId::as_huge", (("p", "frame"),))
+
+    def CN(t):
+        """canonical term in which the frame's huge entry / bitfield, however their indices are spelled, appear in the reference form"""
+        c_ = T.canon(t)
+
+        def go(x):
+            if not isinstance(x, tuple) or not x:
+                return x
+            if x[0] == "idx" and isinstance(x[1], tuple) and x[1] and x[1][0] == "call" and x[1][1] == "llfree::lower::Lower::children" \
+                    and (x[1][2][1] != AS_TREE or x[2] != CHILD):
+                try:
+                    if lib.index_eq(prog, x[1][2][1], AS_TREE) and lib.index_eq(prog, x[2], CHILD):
+                        return ("idx", ("call", x[1][1], (x[1][2][0], AS_TREE)), CHILD)
+                except Exception:
+                    pass
+            if x[0] == "call" and x[1] == "llfree::lower::Lower::bitfield" and x[2][1] != AS_HUGE:
+                try:
+                    if lib.index_eq(prog, x[2][1], AS_HUGE):
+                        return ("call", x[1], (x[2][0], AS_HUGE))
+                except Exception:
+                    pass
+            return tuple(go(y) if isinstance(y, tuple) else y for y in x)
+        return go(c_)
+
     # (a) base frame
     iz = lib.find_calls(b, "llfree::bitfield::Bitfield::is_zero")
     good_bit = False
     guarded = False
     for bi, t in iz:
-        a = [T.canon(tm.operand(x)) for x in t["args"]]
+        a = [CN(tm.operand(x)) for x in t["args"]]
         good_bit = (a[0] == ("call", "llfree::lower::Lower::bitfield", (("p", "self"), ("call", "llfree::FrameId::as_huge", (("p", "frame"),))))
                     and a[1] == ("p", "frame") and a[2] == ("c", 0))
         for s_, d_ in lib.controlling_edges(b, bi):
@@ -324,11 +351,11 @@ def r_stats_at(rep, prog):
                 lhs, rel, rhs = cmp_ if pol else lib.negate_rel(cmp_)
                 if rel in ("gt", "ge"):
                     lhs, rhs, rel = rhs, lhs, {"gt": "lt", "ge": "le"}[rel]
-                if T.canon(rhs) == ENTRY and ((rel == "lt" and T.const_val(lhs) == 0) or (rel == "le" and T.const_val(lhs) == 1)):
+                if CN(rhs) == ENTRY and ((rel == "lt" and T.const_val(lhs) == 0) or (rel == "le" and T.const_val(lhs) == 1)):
                     guarded = True
-                if rel == "ne" and ENTRY in (T.canon(lhs), T.canon(rhs)) and 0 in (T.const_val(lhs), T.const_val(rhs)):
+                if rel == "ne" and ENTRY in (CN(lhs), CN(rhs)) and 0 in (T.const_val(lhs), T.const_val(rhs)):
                     guarded = True
-            if c[0] == "call" and c[1] == HE + "huge" and pol is False and T.canon(c[2][0]) == ENTRY[2][0]:
+            if c[0] == "call" and c[1] == HE + "huge" and pol is False and CN(c[2][0]) == ENTRY[2][0]:
                 guarded = True
     rep.check(len(iz) == 1 and good_bit, rule, "stats_at|base|bit", "reads bit (frame, order 0) of the frame's bitfield",
               "the base-frame query does not test the frame's own bit", b.span)
@@ -344,7 +371,7 @@ def r_stats_at(rep, prog):
         firsts = [T.canon(T.strip_casts(a[2][0])) for a in alts if a[0] == "agg" and len(a[2]) == 3]
         if iz and any(f[0] == "call" and f[1] == "llfree::bitfield::Bitfield::is_zero" for f in firsts):
             base_ok = all((f[0] == "call" and f[1] == "llfree::bitfield::Bitfield::is_zero") or f == ("c", 0) for f in firsts)
-        c = T.canon(t)
+        c = CN(t)
         if c[0] == "agg" and len(c[2]) == 3 and c[2][0] == ENTRY:
             huge_ok = c[2][1] == ("bin", "Div", ENTRY, ("c", HF)) and c[2][2] == ("c", 0)
     # which order selects which arm, and the fields an arm does not compute are 0
@@ -375,7 +402,7 @@ def r_stats_at(rep, prog):
     for bi, si, st in b.stmts():
         if st["k"] != "assign" or st["rv"]["k"] != "aggregate" or "Stats" not in str(st["rv"]["kind"].get("adt", "")):
             continue
-        c = T.canon(tm.rvalue(st["rv"]))
+        c = CN(tm.rvalue(st["rv"]))
         if c[0] == "agg" and len(c[2]) == 3:
             f0 = T.strip_casts(tm.rvalue(st["rv"])[2][0])
             if f0[0] == "l" or (f0[0] == "call" and f0[1] == "llfree::bitfield::Bitfield::is_zero"):
@@ -397,7 +424,7 @@ def r_stats_at(rep, prog):
                 others.append(t2["span"])
         for bi2, si2, st2 in b.stmts():
             if bi2 in arm and st2["k"] == "assign" and st2["rv"]["k"] == "aggregate" and "Stats" in str(st2["rv"]["kind"].get("adt", "")):
-                c2 = T.canon(tm.rvalue(st2["rv"]))
+                c2 = CN(tm.rvalue(st2["rv"]))
                 if not (c2[0] == "agg" and len(c2[2]) == 3 and c2[2][0] == ENTRY):
                     others.append(st2["span"])
         rep.check(not others, rule, "stats_at|huge|single-answer", "the per-huge query always reports the entry's counter",
